@@ -49,6 +49,15 @@ fn programs() -> Vec<Program> {
         ("Main", "import { Box, Tag } from P\nimport { Item } from Q\nclass Main { function main(): unit = {\n  Process.println(Box.init(Item.init(Tag.T2(7))).show());\n  Process.println(Box.init(Item.init(Tag.T1())).show())\n} }\n"),
       ],
     },
+    Program {
+      name: "accepted: recursive type knot reached from two modules' Main.main (layout decisions depend on specialisation order)",
+      entry: "A",
+      modules: vec![
+        ("Shared", "class Opt<T>(None, Some(T)) {}\nclass Chain<T>(End, Link(T, Chain<T>)) {}\nclass Node(val v: int, val ws: Chain<W>) {}\nclass W(V(Node)) {\n  method value(): int = match this { V(n) -> n.v }\n}\nclass Probe {\n  function describe(o: Opt<W>): Str = match o { None -> \"none\", Some(w) -> \"some \" :: Str.fromInt(w.value()) }\n  function len(c: Chain<W>): int = match c { End -> 0, Link(w, rest) -> w.value() + Probe.len(rest) }\n}\n"),
+        ("A", "import { Opt, Chain, Node, W, Probe } from Shared\nclass Main {\n  function main(): unit = {\n    let w = W.V(Node.init(7, Chain.End<W>()));\n    Process.println(Probe.describe(Opt.Some(w)));\n    Process.println(Probe.describe(Opt.None<W>()));\n    Process.println(Str.fromInt(Probe.len(Chain.Link(w, Chain.Link(W.V(Node.init(5, Chain.End<W>())), Chain.End<W>())))))\n  }\n}\n"),
+        ("B", "import { Opt, Node } from Shared\nclass Main {\n  function main(): unit = {\n    let o: Opt<Node> = Opt.None();\n    let _ = o;\n  }\n}\n"),
+      ],
+    },
   ]
 }
 
